@@ -102,9 +102,16 @@ class _V:
         self.mixed = has_mixed(case) if case else False
 
     def vio(self, oracle, detail, cause=None):
-        if not any(v["oracle"] == oracle for v in self.violations):
+        if self.mixed:
+            # histories with a request naming `any` and a specific id of one type run into one known
+            # root cause that can surface through any oracle: report them under one oracle name
+            cause = {"mixed_any_and_specific_request": True, "original_oracle": oracle}
+            detail = f"[{oracle}] {detail}"
+            oracle = "mixed_request_inconsistency"
+        else:
             cause = dict(cause or {})
-            cause["mixed_any_and_specific_request"] = self.mixed
+            cause["mixed_any_and_specific_request"] = False
+        if not any(v["oracle"] == oracle for v in self.violations):
             self.violations.append({"property": "C04", "oracle": oracle, "detail": detail, "cause": cause})
 
     def probe(self, k):
